@@ -1,14 +1,543 @@
 package sym
 
-import "go/types"
+// reflect.go: reflection over interpreter values (the subset hc's tlv8 package and a few
+// initialisers use). reflect.Value is carried as *rvalue, reflect.Type as an interface
+// value whose dynamic type is *reflect.rtype and whose payload is *rtypeV.
 
-// reflect.go: minimal reflect natives (package initialisers that only stash a reflect.Type).
+import (
+	"fmt"
+	"go/types"
+)
+
+type rvalue struct {
+	t    types.Type
+	v    value  // current value (when addr == nil)
+	addr *value // cell holding the value, when addressable/settable
+}
+
+type rtypeV struct{ t types.Type }
+
+func (r *rvalue) get() value {
+	if r.addr != nil {
+		return *r.addr
+	}
+	return r.v
+}
+
+// reflect.Kind numbering
+const (
+	kInvalid = iota
+	kBool
+	kInt
+	kInt8
+	kInt16
+	kInt32
+	kInt64
+	kUint
+	kUint8
+	kUint16
+	kUint32
+	kUint64
+	kUintptr
+	kFloat32
+	kFloat64
+	kComplex64
+	kComplex128
+	kArray
+	kChan
+	kFunc
+	kInterface
+	kMap
+	kPointer
+	kSlice
+	kString
+	kStruct
+	kUnsafePointer
+)
+
+func kindOf(t types.Type) int {
+	if t == nil {
+		return kInvalid
+	}
+	switch u := t.Underlying().(type) {
+	case *types.Basic:
+		switch u.Kind() {
+		case types.Bool:
+			return kBool
+		case types.Int:
+			return kInt
+		case types.Int8:
+			return kInt8
+		case types.Int16:
+			return kInt16
+		case types.Int32:
+			return kInt32
+		case types.Int64:
+			return kInt64
+		case types.Uint:
+			return kUint
+		case types.Uint8:
+			return kUint8
+		case types.Uint16:
+			return kUint16
+		case types.Uint32:
+			return kUint32
+		case types.Uint64:
+			return kUint64
+		case types.Uintptr:
+			return kUintptr
+		case types.Float32:
+			return kFloat32
+		case types.Float64:
+			return kFloat64
+		case types.String:
+			return kString
+		case types.UnsafePointer:
+			return kUnsafePointer
+		case types.Complex64:
+			return kComplex64
+		case types.Complex128:
+			return kComplex128
+		}
+	case *types.Array:
+		return kArray
+	case *types.Chan:
+		return kChan
+	case *types.Signature:
+		return kFunc
+	case *types.Interface:
+		return kInterface
+	case *types.Map:
+		return kMap
+	case *types.Pointer:
+		return kPointer
+	case *types.Slice:
+		return kSlice
+	case *types.Struct:
+		return kStruct
+	}
+	return kInvalid
+}
+
+func (m *Machine) rtypeIface(t types.Type) value {
+	if t == nil {
+		return iface{}
+	}
+	rt := m.P.byPath["reflect"].Type("rtype")
+	return iface{t: types.NewPointer(rt.Type()), v: &rtypeV{t}}
+}
+
+func (m *Machine) kindValue(k int) value {
+	return m.tt.Const(BV(64), uint64(k)) // reflect.Kind is uint
+}
 
 func registerReflectNatives(P *Program, reg func(string, func(fr *frame, args []value) value)) {
+	rv := func(fr *frame, v value) *rvalue {
+		r, ok := v.(*rvalue)
+		if !ok {
+			// the zero reflect.Value
+			return &rvalue{}
+		}
+		return r
+	}
+	rt := func(fr *frame, v value) types.Type {
+		switch x := v.(type) {
+		case *rtypeV:
+			return x.t
+		case *opaque:
+			if t, ok := x.data.(types.Type); ok {
+				return t
+			}
+		}
+		panic(fr.m.unsupported("reflect.Type receiver %T", v))
+	}
 	reg("reflect.TypeOf", func(fr *frame, a []value) value {
+		return fr.m.rtypeIface(a[0].(iface).t)
+	})
+	reg("reflect.ValueOf", func(fr *frame, a []value) value {
 		in := a[0].(iface)
-		return iface{t: types.Typ[types.UnsafePointer], v: &opaque{kind: "reflect.Type", data: in.t}}
+		if in.t == nil {
+			return &rvalue{}
+		}
+		return &rvalue{t: in.t, v: in.v}
 	})
 	reg("regexp.MustCompile", func(fr *frame, a []value) value { return (*value)(nil) })
 	reg("regexp.Compile", func(fr *frame, a []value) value { return tuple{(*value)(nil), iface{}} })
+
+	// ---- Value ----
+	reg("(reflect.Value).Kind", func(fr *frame, a []value) value { return fr.m.kindValue(kindOf(rv(fr, a[0]).t)) })
+	reg("(reflect.Value).IsValid", func(fr *frame, a []value) value { return fr.m.tt.Bool(rv(fr, a[0]).t != nil) })
+	reg("(reflect.Value).Type", func(fr *frame, a []value) value { return fr.m.rtypeIface(rv(fr, a[0]).t) })
+	reg("(reflect.Value).CanSet", func(fr *frame, a []value) value { return fr.m.tt.Bool(rv(fr, a[0]).addr != nil) })
+	reg("(reflect.Value).CanAddr", func(fr *frame, a []value) value { return fr.m.tt.Bool(rv(fr, a[0]).addr != nil) })
+	reg("(reflect.Value).CanInterface", func(fr *frame, a []value) value { return fr.m.tt.True })
+	reg("(reflect.Value).Interface", func(fr *frame, a []value) value {
+		r := rv(fr, a[0])
+		if r.t == nil {
+			panic(fr.m.runtimePanic("reflect: call of reflect.Value.Interface on zero Value"))
+		}
+		if _, isI := r.t.Underlying().(*types.Interface); isI {
+			return r.get()
+		}
+		return iface{t: r.t, v: copyVal(r.get())}
+	})
+	reg("(reflect.Value).IsNil", func(fr *frame, a []value) value {
+		m := fr.m
+		r := rv(fr, a[0])
+		switch v := r.get().(type) {
+		case *value:
+			return m.tt.Bool(v == nil)
+		case []value:
+			return m.tt.Bool(v == nil)
+		case *mapV:
+			return m.tt.Bool(v == nil)
+		case iface:
+			return m.tt.Bool(v.t == nil)
+		case nilFunc:
+			return m.tt.True
+		case *chanV:
+			return m.tt.Bool(v == nil)
+		}
+		panic(m.runtimePanic("reflect: call of reflect.Value.IsNil on " + typeString(r.t)))
+	})
+	reg("(reflect.Value).Elem", func(fr *frame, a []value) value {
+		m := fr.m
+		r := rv(fr, a[0])
+		switch u := r.t.Underlying().(type) {
+		case *types.Pointer:
+			p := r.get().(*value)
+			if p == nil {
+				return &rvalue{}
+			}
+			return &rvalue{t: u.Elem(), addr: p}
+		case *types.Interface:
+			iv := r.get().(iface)
+			if iv.t == nil {
+				return &rvalue{}
+			}
+			return &rvalue{t: iv.t, v: iv.v}
+		}
+		panic(m.runtimePanic("reflect: call of reflect.Value.Elem on " + typeString(r.t)))
+	})
+	reg("(reflect.Value).NumField", func(fr *frame, a []value) value {
+		r := rv(fr, a[0])
+		st, ok := r.t.Underlying().(*types.Struct)
+		if !ok {
+			panic(fr.m.runtimePanic("reflect: call of reflect.Value.NumField on " + typeString(r.t) + " Value"))
+		}
+		return fr.m.intConst(int64(st.NumFields()))
+	})
+	reg("(reflect.Value).Field", func(fr *frame, a []value) value {
+		m := fr.m
+		r := rv(fr, a[0])
+		st, ok := r.t.Underlying().(*types.Struct)
+		if !ok {
+			panic(m.runtimePanic("reflect: call of reflect.Value.Field on " + typeString(r.t) + " Value"))
+		}
+		i := int(m.concreteInt(a[1], "Field index"))
+		if i < 0 || i >= st.NumFields() {
+			panic(m.runtimePanic("reflect: Field index out of range"))
+		}
+		if r.addr != nil {
+			return &rvalue{t: st.Field(i).Type(), addr: &(*r.addr).(structure)[i]}
+		}
+		return &rvalue{t: st.Field(i).Type(), v: r.v.(structure)[i]}
+	})
+	reg("(reflect.Value).Len", func(fr *frame, a []value) value {
+		m := fr.m
+		r := rv(fr, a[0])
+		switch v := r.get().(type) {
+		case []value:
+			return m.intConst(int64(len(v)))
+		case array:
+			return m.intConst(int64(len(v)))
+		case string:
+			return m.intConst(int64(len(v)))
+		case symString:
+			return m.intConst(int64(len(v)))
+		case *mapV:
+			if v == nil {
+				return m.intConst(0)
+			}
+			return m.intConst(int64(v.length()))
+		}
+		panic(m.runtimePanic("reflect: call of reflect.Value.Len on " + typeString(r.t) + " Value"))
+	})
+	reg("(reflect.Value).Index", func(fr *frame, a []value) value {
+		m := fr.m
+		r := rv(fr, a[0])
+		i := int(m.concreteInt(a[1], "Index"))
+		switch u := r.t.Underlying().(type) {
+		case *types.Slice:
+			s := r.get().([]value)
+			if i < 0 || i >= len(s) {
+				panic(m.runtimePanic("reflect: slice index out of range"))
+			}
+			return &rvalue{t: u.Elem(), addr: &s[i]}
+		case *types.Array:
+			if r.addr != nil {
+				return &rvalue{t: u.Elem(), addr: &(*r.addr).(array)[i]}
+			}
+			return &rvalue{t: u.Elem(), v: r.v.(array)[i]}
+		}
+		panic(m.runtimePanic("reflect: call of reflect.Value.Index on " + typeString(r.t) + " Value"))
+	})
+	scalar := func(fr *frame, r *rvalue, what string) *Term {
+		t, ok := r.get().(*Term)
+		if !ok {
+			panic(fr.m.runtimePanic("reflect: call of reflect.Value." + what + " on " + typeString(r.t) + " Value"))
+		}
+		return t
+	}
+	reg("(reflect.Value).Uint", func(fr *frame, a []value) value {
+		return fr.m.tt.ZExt(scalar(fr, rv(fr, a[0]), "Uint"), 64)
+	})
+	reg("(reflect.Value).Int", func(fr *frame, a []value) value {
+		return fr.m.tt.SExt(scalar(fr, rv(fr, a[0]), "Int"), 64)
+	})
+	reg("(reflect.Value).Float", func(fr *frame, a []value) value {
+		return fr.m.tt.FFromFP(scalar(fr, rv(fr, a[0]), "Float"), FP(64))
+	})
+	reg("(reflect.Value).Bool", func(fr *frame, a []value) value { return scalar(fr, rv(fr, a[0]), "Bool") })
+	reg("(reflect.Value).String", func(fr *frame, a []value) value {
+		r := rv(fr, a[0])
+		switch v := r.get().(type) {
+		case string, symString:
+			return v
+		}
+		return "<" + typeString(r.t) + " Value>"
+	})
+	reg("(reflect.Value).Bytes", func(fr *frame, a []value) value {
+		r := rv(fr, a[0])
+		if s, ok := r.get().([]value); ok {
+			return s
+		}
+		panic(fr.m.runtimePanic("reflect: call of reflect.Value.Bytes on " + typeString(r.t) + " Value"))
+	})
+	settable := func(fr *frame, r *rvalue, what string) {
+		if r.addr == nil {
+			panic(fr.m.runtimePanic("reflect: reflect.Value." + what + " using unaddressable value"))
+		}
+	}
+	reg("(reflect.Value).SetUint", func(fr *frame, a []value) value {
+		r := rv(fr, a[0])
+		settable(fr, r, "SetUint")
+		b, ok := r.t.Underlying().(*types.Basic)
+		if !ok || b.Info()&types.IsUnsigned == 0 {
+			panic(fr.m.runtimePanic("reflect: call of reflect.Value.SetUint on " + typeString(r.t) + " Value"))
+		}
+		*r.addr = fr.m.tt.Extract(a[1].(*Term), intWidth(b)-1, 0)
+		return nil
+	})
+	reg("(reflect.Value).SetInt", func(fr *frame, a []value) value {
+		r := rv(fr, a[0])
+		settable(fr, r, "SetInt")
+		b, ok := r.t.Underlying().(*types.Basic)
+		if !ok || b.Info()&types.IsInteger == 0 || b.Info()&types.IsUnsigned != 0 {
+			panic(fr.m.runtimePanic("reflect: call of reflect.Value.SetInt on " + typeString(r.t) + " Value"))
+		}
+		*r.addr = fr.m.tt.Extract(a[1].(*Term), intWidth(b)-1, 0)
+		return nil
+	})
+	reg("(reflect.Value).SetFloat", func(fr *frame, a []value) value {
+		r := rv(fr, a[0])
+		settable(fr, r, "SetFloat")
+		b, ok := r.t.Underlying().(*types.Basic)
+		if !ok || b.Info()&types.IsFloat == 0 {
+			panic(fr.m.runtimePanic("reflect: call of reflect.Value.SetFloat on " + typeString(r.t) + " Value"))
+		}
+		*r.addr = fr.m.tt.FFromFP(a[1].(*Term), FP(floatWidth(b)))
+		return nil
+	})
+	reg("(reflect.Value).SetBool", func(fr *frame, a []value) value {
+		r := rv(fr, a[0])
+		settable(fr, r, "SetBool")
+		*r.addr = a[1]
+		return nil
+	})
+	reg("(reflect.Value).SetString", func(fr *frame, a []value) value {
+		r := rv(fr, a[0])
+		settable(fr, r, "SetString")
+		*r.addr = a[1]
+		return nil
+	})
+	reg("(reflect.Value).SetBytes", func(fr *frame, a []value) value {
+		r := rv(fr, a[0])
+		settable(fr, r, "SetBytes")
+		*r.addr = a[1]
+		return nil
+	})
+	reg("(reflect.Value).Set", func(fr *frame, a []value) value {
+		r := rv(fr, a[0])
+		settable(fr, r, "Set")
+		x := rv(fr, a[1])
+		if x.t == nil {
+			panic(fr.m.runtimePanic("reflect: call of reflect.Value.Set on zero Value"))
+		}
+		if !types.AssignableTo(x.t, r.t) {
+			panic(fr.m.runtimePanic("reflect.Set: value of type " + typeString(x.t) + " is not assignable to type " + typeString(r.t)))
+		}
+		assignInPlace(r.addr, copyVal(x.get()))
+		return nil
+	})
+	reg("reflect.New", func(fr *frame, a []value) value {
+		m := fr.m
+		t := rt(fr, a[0].(iface).v)
+		p := new(value)
+		*p = m.zero(t)
+		return &rvalue{t: types.NewPointer(t), v: p}
+	})
+	reg("reflect.MakeSlice", func(fr *frame, a []value) value {
+		m := fr.m
+		t := rt(fr, a[0].(iface).v)
+		n := int(m.concreteInt(a[1], "MakeSlice len"))
+		c := int(m.concreteInt(a[2], "MakeSlice cap"))
+		st := t.Underlying().(*types.Slice)
+		s := make([]value, n, c)
+		for i := range s {
+			s[i] = m.zero(st.Elem())
+		}
+		return &rvalue{t: t, v: s}
+	})
+	reg("reflect.Append", func(fr *frame, a []value) value {
+		s := rv(fr, a[0])
+		cur := s.get().([]value)
+		out := append([]value(nil), cur...)
+		for _, x := range a[1].([]value) {
+			out = append(out, copyVal(rv(fr, x).get()))
+		}
+		return &rvalue{t: s.t, v: out}
+	})
+	reg("reflect.DeepEqual", func(fr *frame, a []value) value {
+		return fr.m.deepEqual(a[0], a[1])
+	})
+	reg("reflect.Zero", func(fr *frame, a []value) value {
+		t := rt(fr, a[0].(iface).v)
+		return &rvalue{t: t, v: fr.m.zero(t)}
+	})
+
+	// ---- Type (methods of *reflect.rtype) ----
+	T := func(n string) string { return "(*reflect.rtype)." + n }
+	reg(T("Kind"), func(fr *frame, a []value) value { return fr.m.kindValue(kindOf(rt(fr, a[0]))) })
+	reg(T("String"), func(fr *frame, a []value) value { return types.TypeString(rt(fr, a[0]), shortQualifier) })
+	reg(T("Name"), func(fr *frame, a []value) value {
+		if n, ok := rt(fr, a[0]).(*types.Named); ok {
+			return n.Obj().Name()
+		}
+		if b, ok := rt(fr, a[0]).(*types.Basic); ok {
+			return b.Name()
+		}
+		return ""
+	})
+	reg(T("Elem"), func(fr *frame, a []value) value {
+		switch u := rt(fr, a[0]).Underlying().(type) {
+		case *types.Pointer:
+			return fr.m.rtypeIface(u.Elem())
+		case *types.Slice:
+			return fr.m.rtypeIface(u.Elem())
+		case *types.Array:
+			return fr.m.rtypeIface(u.Elem())
+		case *types.Map:
+			return fr.m.rtypeIface(u.Elem())
+		case *types.Chan:
+			return fr.m.rtypeIface(u.Elem())
+		}
+		panic(fr.m.runtimePanic("reflect: Elem of invalid type " + typeString(rt(fr, a[0]))))
+	})
+	reg(T("NumField"), func(fr *frame, a []value) value {
+		st, ok := rt(fr, a[0]).Underlying().(*types.Struct)
+		if !ok {
+			panic(fr.m.runtimePanic("reflect: NumField of non-struct type " + typeString(rt(fr, a[0]))))
+		}
+		return fr.m.intConst(int64(st.NumFields()))
+	})
+	reg(T("Field"), func(fr *frame, a []value) value {
+		m := fr.m
+		st, ok := rt(fr, a[0]).Underlying().(*types.Struct)
+		if !ok {
+			panic(m.runtimePanic("reflect: Field of non-struct type " + typeString(rt(fr, a[0]))))
+		}
+		i := int(m.concreteInt(a[1], "Type.Field index"))
+		if i < 0 || i >= st.NumFields() {
+			panic(m.runtimePanic("reflect: Field index out of bounds"))
+		}
+		sfT := m.P.byPath["reflect"].Type("StructField").Type()
+		sf := m.zero(sfT).(structure)
+		sst := sfT.Underlying().(*types.Struct)
+		for k := 0; k < sst.NumFields(); k++ {
+			switch sst.Field(k).Name() {
+			case "Name":
+				sf[k] = st.Field(i).Name()
+			case "Tag":
+				sf[k] = st.Tag(i)
+			case "Type":
+				sf[k] = m.rtypeIface(st.Field(i).Type())
+			case "Anonymous":
+				sf[k] = m.tt.Bool(st.Field(i).Embedded())
+			case "PkgPath":
+				if !st.Field(i).Exported() && st.Field(i).Pkg() != nil {
+					sf[k] = st.Field(i).Pkg().Path()
+				}
+			}
+		}
+		return sf
+	})
+	_ = fmt.Sprint
+}
+
+func shortQualifier(p *types.Package) string { return p.Name() }
+
+// deepEqual implements reflect.DeepEqual for the value shapes hc compares.
+func (m *Machine) deepEqual(x, y value) *Term {
+	xi, yi := x.(iface), y.(iface)
+	if xi.t == nil || yi.t == nil {
+		return m.tt.Bool(xi.t == nil && yi.t == nil)
+	}
+	if !types.Identical(xi.t, yi.t) {
+		return m.tt.False
+	}
+	return m.deepEqualV(xi.t, xi.v, yi.v)
+}
+
+func (m *Machine) deepEqualV(t types.Type, x, y value) *Term {
+	switch u := t.Underlying().(type) {
+	case *types.Slice:
+		xs, ys := x.([]value), y.([]value)
+		if (xs == nil) != (ys == nil) || len(xs) != len(ys) {
+			return m.tt.False
+		}
+		var cs []*Term
+		for i := range xs {
+			cs = append(cs, m.deepEqualV(u.Elem(), xs[i], ys[i]))
+		}
+		return m.tt.AndN(cs)
+	case *types.Array:
+		xs, ys := x.(array), y.(array)
+		var cs []*Term
+		for i := range xs {
+			cs = append(cs, m.deepEqualV(u.Elem(), xs[i], ys[i]))
+		}
+		return m.tt.AndN(cs)
+	case *types.Struct:
+		xs, ys := x.(structure), y.(structure)
+		var cs []*Term
+		for i := range xs {
+			cs = append(cs, m.deepEqualV(u.Field(i).Type(), xs[i], ys[i]))
+		}
+		return m.tt.AndN(cs)
+	case *types.Pointer:
+		xp, yp := x.(*value), y.(*value)
+		if xp == yp {
+			return m.tt.True
+		}
+		if xp == nil || yp == nil {
+			return m.tt.False
+		}
+		return m.deepEqualV(u.Elem(), *xp, *yp)
+	case *types.Interface:
+		return m.deepEqual(x, y)
+	case *types.Map:
+		panic(m.unsupported("reflect.DeepEqual on maps"))
+	}
+	return m.equals(t, x, y)
 }
